@@ -601,3 +601,43 @@ Fixpoint plain (k : carrier) : bool :=
   | KMapC a b => plain a && plain b
   | KTuple ks => forallb plain ks
   end.
+
+(* ====================================================================================== *)
+(* 6. Carrier values of the type (statement vocabulary of C01_typed_roundtrip_cells)         *)
+(* ====================================================================================== *)
+(* "v is a value of carrier k for column type t": leaves embed into a value of the type ([wf]);
+   Option / MaybeEmpty may be None / Empty ANYWHERE, also as elements of a Vec / set / map (which
+   the dynamic value type cannot express); a value bound to a VECTOR type must embed into a
+   dynamic value of the type outside the known classes (F2: a vector cannot hold nulls). *)
+Fixpoint tgood (k : carrier) (t : ctype) (v : tval) {struct k} : bool :=
+  match k with
+  | KLeaf l => match leaf_embed l t v with Some x => wf t x | None => false end
+  | KDyn | KMaybeUnset _ => false
+  | KOption k' => match v with TNone => true | TSome x => tgood k' t x | _ => false end
+  | KMaybeEmpty k' => match v with TEmptyV => true | TSome x => tgood k' t x | _ => false end
+  | KPtr k' => match v with TSome x => tgood k' t x | _ => false end
+  | KVec k' =>
+      match v, t with
+      | TSeq l, (TList e | TSet e) => forallb (tgood k' e) l
+      | TSeq _, TVector _ _ =>
+          match embed (KVec k') t v with Some (CVal x) => wf t x && negb (known_class t x) | _ => false end
+      | _, _ => false
+      end
+  | KSetC k' => match v, t with TSeq l, TSet e => forallb (tgood k' e) l | _, _ => false end
+  | KMapC ka kb =>
+      match v, t with
+      | TMapV l, TMap tk tv => forallb (fun kv => tgood ka tk (fst kv) && tgood kb tv (snd kv)) l
+      | _, _ => false
+      end
+  | KTuple ks =>
+      match v, t with
+      | TTup vs, TTuple ts =>
+          (fix go (ks : list carrier) (ts : list ctype) (vs : list tval) {struct ks} : bool :=
+             match ks, ts, vs with
+             | [], [], [] => true
+             | k1 :: ks', t1 :: ts', v1 :: vs' => tgood k1 t1 v1 && go ks' ts' vs'
+             | _, _, _ => false
+             end) ks ts vs
+      | _, _ => false
+      end
+  end.
